@@ -1,5 +1,6 @@
-from checks import scan, text, hexre, cond, shortcuts, externals, arena, company, hashmath, faults
+from checks import scan, text, hexre, cond, shortcuts, externals, arena, company, hashmath, faults, compilefuzz
 CHECKS = {
+    "C07": compilefuzz.c07,
     "C16": faults.c16,
     "C14": hashmath.c14,
     "C05": company.c05,
